@@ -33,7 +33,7 @@ pub struct C16Case {
     pub additions: Vec<(u32, String)>,
 }
 
-pub const FAMILIES: &[(&str, u64)] = &[("tiny", 3), ("tiny-hints", 1), ("medium", 3), ("conf", 3), ("lazy", 2), ("deep", 1)];
+pub const FAMILIES: &[(&str, u64)] = &[("tiny", 3), ("tiny-hints", 1), ("medium", 3), ("conf", 3), ("lazy", 2), ("deep", 1), ("many", 1), ("many-hints", 1)];
 
 fn snap_solve(prov: SnapshotProvider<'_>, reqs: Vec<Requirement>, cons: Vec<VersionSetId>) -> Caught<Result<Vec<u32>, bool>> {
     catch(move || {
